@@ -91,6 +91,8 @@ func checkC18(c *Ctx) {
 				if isAge(rr) && reExpField.MatchString(l) {
 					return "fresh", false, true // expiration < Since => not fresh (boundary instant not distinguished)
 				}
+				// any other comparison is a free atom of the table: the answer must not depend on it
+				return "other " + cnd, true, true
 			}
 			return "", false, false
 		}
@@ -110,6 +112,13 @@ func checkC18(c *Ctx) {
 			cnd, pol := normCond(v)
 			a, apol, ok := classify(cnd)
 			if !ok {
+				// the returned expression is a predicate helper of the package: its own decision, in this function's names
+				if hv, hok := evalPredicateHelper(f, v, classify, val, 0); hok {
+					if hv == pol {
+						return "true"
+					}
+					return "false"
+				}
 				clsErr = "returned value " + cnd + " is not a recognised atom"
 				return "unknown"
 			}
@@ -136,6 +145,8 @@ func checkC18(c *Ctx) {
 				cnd, _ := normCond(v)
 				if a, _, ok := classify(cnd); ok {
 					retAtoms = append(retAtoms, a)
+				} else if more, ok := predicateTableAtoms(f, v, classify, 0); ok {
+					retAtoms = append(retAtoms, more...)
 				}
 			}
 		})
